@@ -89,9 +89,15 @@ argll(const char *s)
     return strtoll(s, NULL, 10);
 }
 
-static const cmd_t *tables[] = {
-    cmds_b64, cmds_io, cmds_tables, cmds_jwk, cmds_jose, cmds_misc, NULL
-};
+static const cmd_t *tables[64];
+static int ntables;
+
+void
+h_register(const cmd_t *table)
+{
+    if (ntables < 63)
+        tables[ntables++] = table;
+}
 
 static cmd_fn
 find(const char *name)
